@@ -28,6 +28,7 @@ type Prog struct {
 	ByPath map[string]*packages.Package
 	All    map[string]*packages.Package // every package incl. deps
 	Config string                       // description of the build configuration
+	Raw    *Prog                        // the program as written (set on the helper-expanded view; itself when not normalised)
 
 	funcs     map[string]*FuncInfo // "pkgpath.Recv.Name" / "pkgpath.Name"
 	callers   map[*types.Func][]*FuncInfo
